@@ -199,6 +199,10 @@ def dup_scheme(c, kind, scope, ident):
         vss = [r for r in res if r["kind"] == "vs" and ident.startswith("vs_" + safe(r["ns"], r["name"]) + "_keyval_zone_split_clients_")]
         if len({(r["ns"], r["name"]) for r in vss}) > 1:
             return "variable_namer"
+    if kind == "zone" and ident.startswith("jwks_uri_"):
+        vss = {(r["ns"], r["name"]) for r in res if r["kind"] == "vs" and ident == "jwks_uri_" + r["name"]}
+        if len(vss) > 1:
+            return "jwks_cache_zone"
     if kind in ("upstream", "zone") and scope in ("http", "shm"):
         for vs, ref in dup_vsr_refs(c):
             if ident.startswith("vs_%s_%s_vsr_%s_" % (vs["ns"], vs["name"], ref.replace("/", "_"))):
